@@ -41,6 +41,7 @@ def run(c, chk):
     chk.rule('R16.3', 'the caller\'s declaration array does not escape from the constructor or the duplicator')
     chk.trusted = ['clang/opt IR + DWARF member names', 'the shared-by-design member list (function pointers, user storage, value vector)']
     chk.assumptions = ['independence under interleavings follows from R16.2 and C08 R8.5 and is not separately decided']
+    value_origins.ctx = c
     mod = c.confuse
     allptr = pointer_members(mod, '%struct.cfg_opt_t')
     L = set()
@@ -167,6 +168,17 @@ def value_origins(f, v, seen):
     seen = seen | {v.name}
     d = f.defs.get(v.name)
     if d is None:
+        ctx_ = getattr(value_origins, 'ctx', None)
+        if ctx_ is not None and f.name in ctx_.unknown_funcs:
+            # a helper introduced by refactoring: the value is whatever its callers pass
+            k = [p_.name for p_ in f.params].index(v.name)
+            out = set()
+            for g in ctx_.all_funcs():
+                for call in g.calls(f.name):
+                    if k < len(call.args):
+                        out |= value_origins(g, call.args[k], set())
+            if out:
+                return out
         return {'parameter %s' % f.param_names.get(v.name, v.name)}
     if d.op == 'call':
         return {d.callee_name() or 'indirect call'}
